@@ -20,13 +20,18 @@ Proof. intros H y w Hw. unfold globals_of in Hw. destruct (v_global y); [exact (
 Lemma env_ok_leave sg sgl : env_ok sg -> env_ok sgl -> env_ok (leave sg sgl).
 Proof. intros H1 H2 y w Hw. unfold leave in Hw. destruct (v_global y); [exact (H2 y w Hw)|exact (H1 y w Hw)]. Qed.
 
+Ltac range_tac := first [exact I|cbn; unfold int64_min, int64_max; lia].
 Ltac env_all :=
-  first [ env_base
-        | apply env_ok_supd; [env_all|reflexivity|reflexivity|first [exact I|cbn; unfold int64_min, int64_max; lia]]
-        | apply env_ok_globals; env_all
-        | apply env_ok_leave; [env_all|env_all]
-        | cbn [bind fd_params]; progress env_all ].
-
+  lazymatch goal with
+  | |- env_ok (supd _ _ _) => apply env_ok_supd; [env_all|reflexivity|reflexivity|range_tac]
+  | |- env_ok (globals_of _) => apply env_ok_globals; env_all
+  | |- env_ok (leave _ _) => apply env_ok_leave; [env_all|env_all]
+  | |- env_ok (bind ?p ?v ?sg) => let p' := eval hnf in p in let v' := eval hnf in v in change (env_ok (bind p' v' sg)); cbn [bind]; lazymatch goal with |- env_ok (bind ?p ?v _) => fail 1 "stuck bind" p v | _ => env_all end
+  | |- env_ok (assign_all _ _ _) => cbn [assign_all]; lazymatch goal with |- env_ok (assign_all _ ?x ?v) => fail 1 "stuck assign_all" x v | _ => env_all end
+  | |- env_ok ?sg =>
+      first [ env_base
+            | let sg' := eval hnf in sg in (tryif constr_eq sg sg' then fail 1 "env_ok: unknown shape" sg else (change sg with sg'; env_all)) ]
+  end.
 
 Ltac to_bools l :=
   lazymatch l with
@@ -41,6 +46,7 @@ Ltac ifsides_tac :=
 Ltac jloop_with jp :=
   first [ eapply l_exit; [cbn [incr_of opt_list]; jp|lazy; reflexivity]
         | eapply l_break; [cbn [incr_of opt_list]; jp|lazy; reflexivity|jp]
+        | eapply l_return; [cbn [incr_of opt_list]; jp|lazy; reflexivity|jp]
         | eapply l_next; [cbn [incr_of opt_list]; jp|lazy; reflexivity|jp|first [left; reflexivity|right; reflexivity]|jloop_with jp] ].
 
 Ltac subset_tac := let x := fresh "x" in let Hx := fresh "Hx" in intros x Hx; cbn in Hx; repeat (destruct Hx as [<-|Hx]; [in_tac|]); destruct Hx.
@@ -54,7 +60,7 @@ Ltac ret_tac := first [left; reflexivity|right; split; reflexivity].
 Ltac scall_tac F jp :=
   cbn [scall_at]; exists F; eexists; eexists;
   split; [in_tac|]; split; [reflexivity|]; split; [vm_compute; lia|]; split; [vm_compute; lia|];
-  split; [agree_tac|]; split; [reflexivity|]; split; [env_all|];
+  split; [agree_tac|]; split; [reflexivity|]; split; [unfold F; cbn [fd_params bind]; env_all|];
   split; [cbn [fd_body fd_vars fd_params bind]; jp|]; split; [ret_tac|reflexivity].
 
 Ltac scall_any F jp := lazymatch F with (?A, ?B) => first [scall_any A jp|scall_any B jp] | _ => scall_tac F jp end.
@@ -94,8 +100,9 @@ Ltac jprogF F :=
                     [reflexivity|ifsides_tac|lazy; reflexivity|cbn [pick map snd fst]; jprogF F|discriminate|reflexivity] ]
       end
   | |- J _ _ (Prog (SFor _ _ _ _ :: _)) _ _ _ _ =>
-      eapply j_for; [reflexivity|side_tac|cbn [opt_list]; jprogF F|jloop_with ltac:(idtac; jprogF F)|jprogF F]
-  | |- J _ _ (Prog ?b) _ _ _ _ => let b' := eval hnf in b in change b with b'; jprogF F
+      first [ eapply j_for; [reflexivity|side_tac|cbn [opt_list]; jprogF F|jloop_with ltac:(idtac; jprogF F)|jprogF F]
+            | eapply j_for_return; [reflexivity|side_tac|reflexivity|cbn [opt_list]; jprogF F|jloop_with ltac:(idtac; jprogF F)] ]
+  | |- J _ _ (Prog ?b) _ _ _ _ => let b' := eval hnf in b in (tryif constr_eq b b' then fail 1 "no rule for" b else (change b with b'; jprogF F))
   end.
 Ltac jprog := jprogF tt.
 
@@ -402,5 +409,88 @@ Proof.
   assert (forall F, In F [F_abs; F_show] -> fun_ok script_abs F) as Hok by (intros F [<-|[<-|[]]]; [exact abs_fun_ok|exact show_fun_ok]).
   destruct (calls_preserved [F_abs; F_show] script_abs 1 0 3 [] Hok XS_abs sg_empty main_abs sgF _ s_abs_main tt s_abs_end [] HJ
               ltac:(vm_compute; reflexivity) eq_refl ltac:(intros y w H; discriminate H) ctx_abs fresh_abs) as (X & b' & Hx & Hrun & _).
+  exists X, b'. split; [exact Hx|exact Hrun].
+Qed.
+
+(* ---- return inside a loop ----
+   func find(n int) int { for i := 0; i < 10; i++ { if i * i >= n { return i } }; return 0 - 1 }   r := find(10); print(r) *)
+Definition li : var := mkVar (bs "i") (T DInt) false false.
+Definition pn : var := mkVar (bs "n") (T DInt) false false.
+Definition find_body : list stmt :=
+  [SFor (Some (SVarDef [li] [EInt 0])) (ECompare (EVar li) CLt (EInt 10)) (Some (SAssign [li] [EBinary (EVar li) OpAdd (EInt 1)]))
+     [SIf [(ECompare (EBinary (EVar li) OpMul (EVar li)) CGe (EVar pn), [SReturn [EVar li]])] []];
+   SReturn [EBinary (EInt 0) OpSub (EInt 1)]].
+Definition find_def : stmt := SFunc (bs "find") [T DInt] [pn] find_body false.
+Definition main_find : list stmt := [SVarDefCall [gr] (ECall (bs "find") [T DInt] [EInt 10]); SPrint [EVar gr]].
+Definition s_find_f : bstate := cv_func_start bstate atom bash_conv (bs "find") [bs "n"] [T DInt] b_init.
+Definition s_find_r : bstate := st_of (go_fix find_body s_find_f).
+Definition s_find_main : bstate := st_of (t_stmt bash_conv find_def b_init).
+Definition s_find_end : bstate := st_of (go_fix main_find s_find_main).
+Definition script_find : list line := b_code s_find_end.
+Definition XS_find : list var := [gr].
+Definition XSf_find : list var := [gr; pn; li].
+Definition F_find : fdef := mkFdef (bs "find") [pn] find_body XSf_find s_find_f s_find_r.
+
+Lemma find_fun_ok : fun_ok script_find F_find.
+Proof.
+  unfold fun_ok. cbn [F_find fd_sf fd_sr fd_vars fd_params fd_body fd_name].
+  split; [vm_compute; lia|].
+  split; [intros x Hx; cases_in Hx ltac:(reflexivity)|].
+  split; [intros x k Hx; cases_in Hx ltac:(names_tac)|].
+  split.
+  { intros y z Hy Hz. cbn in Hy, Hz.
+    repeat (destruct Hy as [<-|Hy]; [repeat (destruct Hz as [<-|Hz]; [first [intros _; reflexivity|names_tac]|]); destruct Hz|]). destruct Hy. }
+  split.
+  { split; [|split; [|split; [|split]]].
+    - intros x k Hx. cases_in Hx ltac:(names_tac).
+    - intros x i Hx. cases_in Hx ltac:(names_tac).
+    - apply le_n.
+    - intros x c y Hx Hc. assert (c = 0%nat) as -> by (vm_compute in Hc; lia). cases_in Hx ltac:(names_tac).
+    - intros x i Hx. cases_in Hx ltac:(names_tac). }
+  split; [intros p Hp; cases_in Hp ltac:(split; [reflexivity|in_tac])|].
+  split; [vm_compute; reflexivity|]. split; [reflexivity|].
+  eexists. eexists. split; vm_compute; reflexivity.
+Qed.
+
+Lemma toplevel_names s : b_funcs s = 0%nat ->
+  (forall x, user_name s x = v_name x) /\ (forall k, helper_name s k = bs "_h" ++ dec_nat k) /\ (forall i, ma_var s i = ma_name i).
+Proof. intro H. repeat split; intros; unfold user_name, helper_name, ma_var; apply var_name_toplevel; exact H. Qed.
+
+Lemma ctx_find : ctx_ok XS_find sg_empty [] s_find_main.
+Proof.
+  destruct (toplevel_names s_find_main ltac:(vm_compute; reflexivity)) as (Hu & Hh & Hm).
+  constructor.
+  - intros x Hx. unfold var_fine. rewrite Hu. cases_in Hx ltac:(reflexivity).
+  - intros x v _ Hv. discriminate Hv.
+  - intros x k Hx. rewrite Hu, Hh. cases_in Hx ltac:(names_tac).
+  - intros y z Hy Hz. rewrite !Hu. cbn in Hy, Hz.
+    repeat (destruct Hy as [<-|Hy]; [repeat (destruct Hz as [<-|Hz]; [first [intros _; reflexivity|names_tac]|]); destruct Hz|]). destruct Hy.
+Qed.
+
+Lemma fresh_find : fresh_flags 1 2 XS_find s_find_main.
+Proof.
+  destruct (toplevel_names s_find_main ltac:(vm_compute; reflexivity)) as (Hu & Hh & Hm).
+  split; [|split; [|split; [|split]]].
+  - intros x k Hx. rewrite Hu. cases_in Hx ltac:(names_tac).
+  - intros x i Hx. rewrite Hu. cases_in Hx ltac:(names_tac).
+  - vm_compute. lia.
+  - intros x c y Hx _. rewrite Hu. cases_in Hx ltac:(names_tac).
+  - intros x i Hx. rewrite Hu, Hm. cases_in Hx ltac:(names_tac).
+Qed.
+
+Lemma find_body_derivation :
+  exists sgl out g, J (scall_at [F_find] 0 0 1) XSf_find (Prog find_body) (bind [pn] [VInt 10] (globals_of sg_empty)) sgl out g.
+Proof. eexists. eexists. eexists. unfold find_body. Timeout 60 jprogF F_find. Qed.
+Lemma find_sample_derivation :
+  exists sgF out, J (scall_at [F_find] 1 1 2) XS_find (Prog main_find) sg_empty sgF out SN /\ out = bs "4" ++ [10].
+Proof. eexists. eexists. split; [unfold main_find; jprogF F_find|vm_compute; reflexivity]. Qed.
+
+Lemma find_sample_applies :
+  exists X b', b_code s_find_end = b_code s_find_main ++ X /\ lruns (call_of script_find 1) [] [] [] X (b', bs "4" ++ [10]).
+Proof.
+  destruct find_sample_derivation as (sgF & out & HJ & ->).
+  assert (forall F, In F [F_find] -> fun_ok script_find F) as Hok by (intros F [<-|[]]; exact find_fun_ok).
+  destruct (calls_preserved [F_find] script_find 1 1 2 [] Hok XS_find sg_empty main_find sgF _ s_find_main tt s_find_end [] HJ
+              ltac:(vm_compute; reflexivity) eq_refl ltac:(intros y w H; discriminate H) ctx_find fresh_find) as (X & b' & Hx & Hrun & _).
   exists X, b'. split; [exact Hx|exact Hrun].
 Qed.
